@@ -34,8 +34,36 @@ def evidence_text(e):
     return "evidence(%s,%s)." % (a, "true" if val else "false")
 
 
+def merged_clause_texts(clauses):
+    """consecutive deterministic rules with the same single head are written as ONE clause whose body is
+    the disjunction of their bodies: `p :- x. p :- q.` -> `p :- (x ; q).` (same meaning, different engine
+    path: body disjunctions)"""
+    out = []
+    i = 0
+    while i < len(clauses):
+        cl = clauses[i]
+        group = [cl]
+        if len(cl["heads"]) == 1 and cl["heads"][0][0] is None and cl["body"]:
+            j = i + 1
+            while (j < len(clauses) and len(clauses[j]["heads"]) == 1 and clauses[j]["heads"][0] == cl["heads"][0]
+                   and clauses[j]["body"]):
+                group.append(clauses[j])
+                j += 1
+        if len(group) > 1:
+            bodies = ["(" + ", ".join(lit_text(l) for l in g["body"]) + ")" for g in group]
+            out.append("%s :- (%s)." % (atom_str(cl["heads"][0][1]), " ; ".join(bodies)))
+            i += len(group)
+        else:
+            out.append(clause_text(cl))
+            i += 1
+    return out
+
+
 def statements(prog):
-    out = [clause_text(cl) for cl in prog["clauses"]]
+    if prog.get("merge_or"):
+        out = merged_clause_texts(prog["clauses"])
+    else:
+        out = [clause_text(cl) for cl in prog["clauses"]]
     out += ["query(%s)." % atom_str(q) for q in prog.get("queries", [])]
     out += [evidence_text(e) for e in prog.get("evidence", [])]
     return out
@@ -356,3 +384,21 @@ def fc_programs(guarded=False):
             if guarded:
                 used_facts.append(fact("0.2", A("g")))
             yield used_facts + clauses, sorted(heads, key=FC_ATOMS.index)
+
+
+# ---------------------------------------------------------------------------------------------
+# FT: derived atoms that are true (or false) in every world without being simplified away
+
+def ft_programs():
+    """t is defined by 2-3 rules over literals of the facts a, b (all choices of bodies with one or two
+    literals); s :- \\+t.  Includes tautologies such as t :- a,b. t :- \\+a. t :- \\+b. whose node is forced
+    true in every model of the CNF although no step of the pipeline simplifies it syntactically."""
+    lits = [("a", True), ("a", False), ("b", True), ("b", False)]
+    bodies = [(l,) for l in lits] + [(l1, l2) for l1 in lits for l2 in lits if l1[0] < l2[0]]
+    for k in (2, 3):
+        for bs in itertools.combinations(bodies, k):
+            clauses = [fact("0.3", A("a")), fact("0.4", A("b"))]
+            for b in bs:
+                clauses.append(rule(A("t"), [[pos, A(x)] for x, pos in b]))
+            clauses.append(rule(A("s"), [[False, A("t")]]))
+            yield clauses
